@@ -138,6 +138,8 @@ func iterRunner(c C18Case) (run func(cb func(Item) bool), unordered bool, errorI
 				tr.Add(w)
 			}
 		}
+		// (the very first traversal of this trie is one that is abandoned after its first item)
+		tr.ForEach(func([]byte) bool { return false })
 		return func(cb func(Item) bool) {
 			tr.ForEach(func(b []byte) bool { return cb(Item{Rec: string(b)}) })
 		}, true, false, true
